@@ -790,13 +790,13 @@ func (d *drv) hashValueCase(dt string, v any, desc string) {
 			return
 		}
 		if dt == ld.XSDDouble {
-			d.fr.AddStr(x)
+			d.flStr(x)
 		}
 		_, _ = d.prims.Bytes(x)
 		raw = "S"
 	case bool:
 		if dt == ld.XSDDouble {
-			d.fr.AddStr(fmt.Sprint(x))
+			d.flStr(fmt.Sprint(x))
 		}
 		raw = "RGBool " + b2c(x)
 	case int, int8, int16, int32, int64:
@@ -814,7 +814,7 @@ func (d *drv) hashValueCase(dt string, v any, desc string) {
 			i64 = y
 		}
 		if dt == ld.XSDDouble {
-			d.fr.AddInt(big.NewInt(i64), false)
+			d.flInt(big.NewInt(i64), false)
 		}
 		_, _ = d.prims.Bytes(fmt.Sprint(i64))
 		raw = "RGInt " + coqgen.SNumI(i64)
@@ -833,15 +833,15 @@ func (d *drv) hashValueCase(dt string, v any, desc string) {
 			u64 = y
 		}
 		if dt == ld.XSDDouble {
-			d.fr.AddInt(new(big.Int).SetUint64(u64), true)
+			d.flInt(new(big.Int).SetUint64(u64), true)
 		}
 		raw = "RGUint " + coqgen.SNum(new(big.Int).SetUint64(u64))
 	case float64:
-		d.fr.AddBits(math.Float64bits(x))
+		d.flBits(math.Float64bits(x))
 		_, _ = d.prims.Bytes(ld.GetCanonicalDouble(x))
 		raw = "RGFloat " + coqgen.Limbs(new(big.Int).SetUint64(math.Float64bits(x)))
 	case float32:
-		d.fr.AddBits(math.Float64bits(float64(x)))
+		d.flBits(math.Float64bits(float64(x)))
 		_, _ = d.prims.Bytes(ld.GetCanonicalDouble(float64(x)))
 		raw = "RGFloat " + coqgen.Limbs(new(big.Int).SetUint64(math.Float64bits(float64(x))))
 	default:
